@@ -2079,3 +2079,29 @@ def rule_sig_iometa(text):
         apps.append(_app("R-sigmut", text, mm.start(), mm.end(), new, "interior mutability made explicit: the device calls are logged on `self`"))
         text = text[:mm.start()] + new + text[mm.end():]
     return text, apps
+
+
+def rule_sweepstop(text):
+    """TtlSweeper::stop (ttl_sweep.rs)"""
+    apps = []
+    ws = r"\s*"
+    table = [
+        (r"self" + ws + r"\." + ws + r"handle" + ws + r"\." + ws + r"take\(\)", "take_handle(&mut self.handle)", "R-take", "verified helper: Option::take"),
+        (r"(\w+)" + ws + r"\." + ws + r"thread\(\)" + ws + r"\." + ws + r"id\(\)" + ws + r"!=" + ws + r"thread" + ws + r"::" + ws + r"current\(\)" + ws + r"\." + ws + r"id\(\)",
+         r"thread_id_ne(&\1.thread().id(), &thread_current().id())", "R-tid", "shim: comparison of two thread ids"),
+        (r"let" + ws + r"_" + ws + r"=" + ws + r"(\w+)" + ws + r"\." + ws + r"join\(\)" + ws + r";", r"let _ = join_sweeper(\1, &self.shutdown);", "R-join",
+         "shim: JoinHandle::join on the sweeper's handle; its precondition (not the calling thread, shutdown flag set) is what makes the join return"),
+    ]
+    for pat, rep, rname, why in table:
+        n = 0
+        while n < 8:
+            n += 1
+            mm = re.search(pat, text)
+            if not mm:
+                break
+            new = mm.expand(rep)
+            if new == text[mm.start():mm.end()]:
+                break
+            apps.append(_app(rname, text, mm.start(), mm.end(), new, why))
+            text = text[:mm.start()] + new + text[mm.end():]
+    return text, apps
